@@ -34,7 +34,11 @@ func runC17(w *h.W, batch int) {
 	nHist := 6
 	for hi := 0; hi < nHist; hi++ {
 		hr := r.Fork()
-		corp := gen.MakeCorpus(hr, gen.CorpusOpt{N: hr.LogInt(6, 400), Vocab: hr.Range(2, 6), MIDSpread: hr.LogInt(2, 300), SmallRID: hr.Chance(1, 4), MaxToks: 2, Agg: true, Groups: 5,
+		nDocs := hr.LogInt(6, 400)
+		if hi == 0 && batch%4 == 0 {
+			nDocs = hr.Range(4000, 12000) // large bulks: several index workers busy with copies of the same IDs at once
+		}
+		corp := gen.MakeCorpus(hr, gen.CorpusOpt{N: nDocs, Vocab: hr.Range(2, 6), MIDSpread: hr.LogInt(2, 300), SmallRID: hr.Chance(1, 4), MaxToks: 2, Agg: true, Groups: 5,
 			Tag: fmt.Sprintf("b%dh%d", batch, hi)})
 		st, err := sdb.Open(w.Sub(fmt.Sprintf("h%d", hi)), sdb.Opt{Mapping: StoreMapping(), SkipSortDocs: hr.Chance(1, 4)})
 		if err != nil {
@@ -189,11 +193,20 @@ func runC17(w *h.W, batch int) {
 		w.Count("histories", 1)
 		w.Count("repeated_deliveries", int64(repeats))
 		w.Count("concurrent_groups", int64(concurrent))
-		forms := []string{"active", "sealed", "restarted"}
+		forms := []string{"active", "replayed", "sealed", "restarted"}
 		for _, form := range forms {
 			switch form {
 			case "sealed":
 				st.SealAll()
+			case "replayed":
+				// restart while the fraction is still active: Replay hands the original and its repeats to the index workers back to back
+				st.Stop()
+				if st, err = sdb.Open(st.Dir, st.Opt); err != nil {
+					if w.Begin(map[string]any{"step": "restart-active", "history": hdesc}) {
+						w.Violation("C17:store-did-not-start", map[string]any{"error": err.Error()})
+					}
+					st = nil
+				}
 			case "restarted":
 				st.Stop()
 				if st, err = sdb.Open(st.Dir, st.Opt); err != nil {
